@@ -124,6 +124,27 @@ let dispatch (name : string) (a : string array) : string =
                              ^ " n" ^ string_of_int (Stdlib.List.length (!pl).PipelineSlurry.slurries))
     done;
     Buffer.contents buf
+  | "Pump.point" | "Pump.power_required" | "Pump.power_available" ->
+    let fuel = get_int a in let root = get_num a in
+    let ds = get_num a in let di = get_num a in
+    let qh = get_pairs a in let qp = get_pairs a in let xlo = get_bool a in
+    let avail = get_num a in
+    let lim = (match next a with "torque" -> Pump.LTorque | "power" -> Pump.LPower | "curve" -> Pump.LCurve | _ -> Pump.LNone) in
+    let drv = get_pairs a in let gear = get_num a in
+    let cs = get_num a in let ci = get_num a in let md = get_num a in
+    let rl = get_num a in let rm = get_num a in
+    let p = { Pump.design_speed = ds; design_impeller = di; coq_QH = qh; coq_QP = qp; curves_xlo = xlo; avail_power = avail;
+              limited = lim; driver_curve = drv; gear_ratio = gear; current_speed = cs; current_impeller = ci;
+              max_driver_speed = md; rhol = rl; rhom = rm } in
+    let q = get_num a in
+    (match name with
+     | "Pump.point" ->
+       let w = get_bool a in
+       (match Pump.point fN (nat_of_int fuel) root p q w with
+        | Some (((q', h), pw), n) -> cat [out_num q'; out_num h; out_num pw; out_num n]
+        | None -> raise (Py "Fuel"))
+     | "Pump.power_required" -> let n = get_num a in let w = get_bool a in out_num (Pump.power_required fN p q n w)
+     | _ -> out_num (Pump.power_available fN p q))
   | "Fracs.create_fracs" ->
     let g = get_pairs a in
     let dp = get_num a in let nu = get_num a in let rhol = get_num a in let rhos = get_num a in
